@@ -1,6 +1,7 @@
 package netsim
 
 import (
+	"strings"
 	"bytes"
 	"encoding/binary"
 	"fmt"
@@ -128,6 +129,20 @@ func (s *Sim) replayOracle() {
 				st, _, err = r.Exec.ApplyBlock(st, meta.BlockID, block)
 			}()
 			if err != nil {
+				if strings.Contains(strings.ToLower(err.Error()), "evidence") {
+					// the same block, the same evidence, another moment of verification: real evidence
+					// must be accepted by every correct node (C19), whenever it looks at it
+					allReal := true
+					for _, ev := range block.Evidence().Evidence {
+						if real, _ := s.mon.evidenceIsReal(ev); !real {
+							allReal = false
+						}
+					}
+					if allReal {
+						s.res.Violate("C19", "committed-evidence-refused-on-replay", "a correct node validating a committed block later than the validators did refuses the real evidence in it: "+sanitizeSig(firstLine(err.Error())),
+							fmt.Sprintf("height %d (%s cache): %v", h, kind, err))
+					}
+				}
 				s.res.Violate("C06", "replay-rejects-committed-block", "a fresh node re-executing the committed chain rejects a block every validator accepted: "+sanitizeSig(firstLine(err.Error())),
 					fmt.Sprintf("height %d (%s cache): %v", h, kind, err))
 				s.stopNode(r)
